@@ -28,6 +28,7 @@ import (
 	"runtime/pprof"
 	"strconv"
 	"strings"
+	"syscall"
 	"time"
 
 	"github.com/containerd/log"
@@ -73,11 +74,58 @@ func body(r *vf.Run) {
 	}
 }
 
-func nCases(r *vf.Run) int { return r.N(28, 420) }
-func nReps(r *vf.Run) int  { return r.N(3, 3) }
+// Case counts. A conversion is expensive out of proportion to the 10 kB it converts:
+// every gzip member costs a fresh 0.7 MB flate compressor and every zstd writer
+// GOMAXPROCS encoders, which the -race build pays for per byte of shadow memory (on the
+// shared VM of this project a page fault costs ~90 us). The race stage therefore runs
+// fewer cases and repetitions than the plain stage; the race reports do not depend on
+// the schedule, the semantic oracle (plain and race stage) does.
+func nCases(r *vf.Run, stage string) int {
+	if stage == "conv" {
+		return r.N(7, 49)
+	}
+	return r.N(21, 210)
+}
+
+func nReps(stage string) int {
+	if stage == "conv" {
+		return 2
+	}
+	return 3
+}
+
+// caseOf: each stage has its own case stream (race: lean cases, see genCase).
+func caseOf(r *vf.Run, stage string, i int) caseSpec {
+	if stage == "conv" {
+		return genCase(r.RNG(1, uint64(i)), i, nReps(stage), true)
+	}
+	return genCase(r.RNG(3, uint64(i)), i, nReps(stage), false)
+}
+
+// childEnv: fewer Ps and fewer GC cycles for the children. The race detector's verdict
+// does not depend on parallelism; zstd allocates one encoder per P, Build one sub-blob
+// per P, and a GC cycle has to stop every P of a process that competes with ~100 others.
+var childEnv = []string{"GOMAXPROCS=4", "GOGC=400"}
+
+// mountScratchTmpfs puts the scratch directory on a tmpfs when this process runs in a
+// private mount namespace (run.sh): content/local fsyncs every commit. Returns the undo.
+func mountScratchTmpfs(r *vf.Run) func() {
+	self, err1 := os.Readlink("/proc/self/ns/mnt")
+	init1, err2 := os.Readlink("/proc/1/ns/mnt")
+	if err1 != nil || err2 != nil || self == init1 || os.Geteuid() != 0 {
+		r.Set("scratch_on_tmpfs", false)
+		return func() {}
+	}
+	if err := syscall.Mount("tmpfs", r.Scratch, "tmpfs", 0, "size=6g,mode=0755"); err != nil {
+		r.Set("scratch_on_tmpfs", false)
+		return func() {}
+	}
+	r.Set("scratch_on_tmpfs", true)
+	return func() { _ = syscall.Unmount(r.Scratch, syscall.MNT_DETACH) }
+}
 
 func top(r *vf.Run) {
-	n := nCases(r)
+	defer mountScratchTmpfs(r)()
 	if only := os.Getenv("VERIF_C19_ONLY"); only != "" {
 		// debugging / replay aid: run the single case <only> (both builds), nothing else
 		i, _ := strconv.Atoi(only)
@@ -85,9 +133,9 @@ func top(r *vf.Run) {
 		runBatches(r, "convp", i, i+1, 1, false)
 		return
 	}
-	runBatches(r, "conv", 0, n, r.N(7, 35), true)
-	runBatches(r, "convp", 0, n, r.N(14, 70), false)
-	ex := r.RunChild(vf.ChildSpec{Stage: "direct", Race: true, Timeout: 10 * time.Minute, Attribution: []string{attribution}})
+	runBatches(r, "conv", 0, nCases(r, "conv"), r.N(7, 7), true)
+	runBatches(r, "convp", 0, nCases(r, "convp"), r.N(21, 42), false)
+	ex := r.RunChild(vf.ChildSpec{Stage: "direct", Race: true, Timeout: 10 * time.Minute, Attribution: []string{attribution}, Env: childEnv})
 	if ex.TimedOut {
 		r.Inconclusive("watchdog: stage direct timed out")
 	} else if ex.ExitCode != 0 || ex.Signal != "" || !ex.Partial {
@@ -119,7 +167,7 @@ func runBatches(r *vf.Run, stage string, from, n, batch int, race bool) {
 		}
 		ex := r.RunChild(vf.ChildSpec{
 			Stage: stage, Args: []string{strconv.Itoa(lo), strconv.Itoa(hi), journal},
-			Race: race, Timeout: timeout, Attribution: []string{attribution},
+			Race: race, Timeout: timeout, Attribution: []string{attribution}, Env: childEnv,
 		})
 		open, lastEnd := readJournal(journal)
 		if ex.TimedOut {
@@ -145,7 +193,7 @@ func runBatches(r *vf.Run, stage string, from, n, batch int, race bool) {
 			return
 		}
 		class, site, head := crashSignature(ex.Output)
-		c := genCase(r.RNG(1, uint64(open)), open, nReps(r))
+		c := caseOf(r, stage, open)
 		if class == "" {
 			r.Inconclusive(fmt.Sprintf("child stage %s died in a case without a recognisable crash report (exit %d %s)", stage, ex.ExitCode, ex.Signal))
 		} else {
@@ -285,25 +333,45 @@ func crashSite(stack string) string {
 	return first
 }
 
-// shortFunc turns "nativeconverter/estargz/externaltoc.layerConvert.func1" into
-// "externaltoc.layerConvert" (closure numbering is not stable across edits).
+// shortFunc turns "nativeconverter/estargz/externaltoc.layerConvert.func1" (or, when the
+// compiler inlined layerConvert into its caller, "….externaltoc.LayerConvertFunc.layerConvert.func2")
+// into "externaltoc.layerConvert": closure numbering and inlining are not stable across edits.
 func shortFunc(fn string) string {
 	if i := strings.LastIndex(fn, "/"); i >= 0 {
 		fn = fn[i+1:]
 	}
-	for {
-		i := strings.LastIndex(fn, ".")
-		if i < 0 {
-			break
+	// split at dots outside parentheses
+	var parts []string
+	depth, start := 0, 0
+	for i := 0; i < len(fn); i++ {
+		switch fn[i] {
+		case '(':
+			depth++
+		case ')':
+			depth--
+		case '.':
+			if depth == 0 {
+				parts = append(parts, fn[start:i])
+				start = i + 1
+			}
 		}
-		last := fn[i+1:]
+	}
+	parts = append(parts, fn[start:])
+	for len(parts) > 2 {
+		last := parts[len(parts)-1]
 		if strings.HasPrefix(last, "func") || isDigits(last) || strings.HasPrefix(last, "gowrap") {
-			fn = fn[:i]
+			parts = parts[:len(parts)-1]
 			continue
 		}
 		break
 	}
-	return fn
+	if len(parts) <= 2 {
+		return strings.Join(parts, ".")
+	}
+	if strings.HasPrefix(parts[len(parts)-2], "(") { // method: pkg.(*T).M
+		return parts[0] + "." + parts[len(parts)-2] + "." + parts[len(parts)-1]
+	}
+	return parts[0] + "." + parts[len(parts)-1]
 }
 
 func isDigits(s string) bool {
@@ -345,7 +413,7 @@ func child(r *vf.Run) {
 	for i := lo; i < hi; i++ {
 		fmt.Fprintf(jf, "BEGIN %d\n", i)
 		_ = jf.Sync()
-		c := genCase(r.RNG(1, uint64(i)), i, nReps(r))
+		c := caseOf(r, r.Child, i)
 		runCase(r, c, filepath.Join(r.Scratch, fmt.Sprintf("c%05d", i)))
 		fmt.Fprintf(jf, "END %d\n", i)
 		r.FlushPartial()
